@@ -82,8 +82,19 @@ func c17Holds(s *SugarDB, k string, p c17Pre, ob string) {
 			o := st.Get(ss.Value(m.name))
 			good = good && o.Exists && float64(o.Score) == m.score
 		}
-		vr.Assert(good, ob)
+		vr.Assert(good && c17EnumOK(st, p.members), ob)
 	}
+}
+
+// c17EnumOK: the members the set enumerates are exactly the model's (see zsetEnumOK).
+func c17EnumOK(st *ss.SortedSet, want []c17M) bool {
+	names := make([]string, 0, len(want))
+	scores := make([]float64, 0, len(want))
+	for _, m := range want {
+		names = append(names, m.name)
+		scores = append(scores, m.score)
+	}
+	return zsetEnumOK(st, names, scores)
 }
 
 func fmtScore(f float64) string { return strconv.FormatFloat(f, 'f', -1, 64) }
